@@ -81,7 +81,8 @@ pub struct Raw {
 }
 
 const MACRO_NAMES: [&str; 10] = ["m", "mm", "m1", "ma", "mac_", "_m", "M", "m_a", "am", "a_m"];
-const PARAM_NAMES: [&str; 20] = ["a", "ab", "a1", "_a", "x", "ax1", "b", "ba", "q", "qq", "d", "ad", "dd", "mo", "v", "v_", "k", "i", "al1", "_"];
+// x1, x2, b1, b10, xA, XF: names that are the tail of a hex / binary literal (0x1, 0b10, 0XF): a literal in the body is one word, not a use of the parameter
+const PARAM_NAMES: [&str; 26] = ["a", "ab", "a1", "_a", "x", "x1", "x2", "ax1", "b", "b1", "b10", "ba", "q", "qq", "d", "ad", "dd", "mo", "v", "v_", "k", "i", "al1", "xA", "XF", "_"];
 
 struct Sel<'a> {
     b: &'a [u8],
@@ -341,6 +342,18 @@ pub fn build(raw: &Raw) -> Case13 {
                     }
                 }
                 body.push(BItem::Ins(pieces));
+            }
+        }
+        // a literal whose tail spells a parameter name (0x2 next to a parameter x2) stays a literal
+        for p in params.clone() {
+            let tail_ok = p.len() >= 2 && matches!(p.as_bytes()[0], b'x' | b'X' | b'b' | b'B') && p[1..].chars().all(|c| if p.as_bytes()[0] | 0x20 == b'x' { c.is_ascii_hexdigit() } else { c == '0' || c == '1' });
+            if tail_ok && s.next() % 3 != 0 {
+                let line = match s.next() % 3 {
+                    0 => format!("or dx,0{}", p),
+                    1 => format!("mov cx,0{}", p),
+                    _ => format!("add word [0{}],1", p),
+                };
+                body.push(BItem::Ins(vec![Piece::Lit(line)]));
             }
         }
         macros.push(MacroSpec { name, params, kinds, body, pad: s.next() % 4, upper_kw: s.next() & 1 == 1 });
